@@ -517,7 +517,7 @@ func addTree(
 
 			c.Type = TypeDir
 			c.Destination = NormalizeAbsoluteDirPath(destination)
-			c.FileInfo.Mode = info.Mode() &^ umask
+			c.FileInfo.Mode = info.Mode().Perm() &^ umask
 			c.FileInfo.MTime = info.ModTime()
 			if ownedByFilesystem(c.Destination) {
 				c.Type = TypeImplicitDir
